@@ -71,7 +71,7 @@ def h_access(ctx, L, width, prefix, n_excl, second, skip_nc):
     try:
         out = access.do_access("genome.fa", ex_handles, g, skip_nc)
     except Exception as exc:
-        ctx.claim(False, f"do_access raised {type(exc).__name__}", info=str(exc)[:200])
+        claim_raised(ctx, "do_access", exc)
         return
     finally:
         if orig_open is None:
